@@ -57,14 +57,14 @@ var up4SDFs = []string{"", "permit out udp from 8.8.8.0/24 to assigned", "permit
 var up4GNBs = []string{"198.18.5.1", "198.18.5.2", "198.18.5.3"}
 
 type up4GenSess struct {
-	peer  int
-	live  bool
+	peer int
+	live bool
 	// frozen: a key-changing Update PDR was sent, whose outcome the open-loop generator cannot know; the
 	// session's PDRs are not re-stated any more
 	frozen bool
-	dlFAR model.FAR
-	pdrs  []model.PDR
-	qers  []model.QER
+	dlFAR  model.FAR
+	pdrs   []model.PDR
+	qers   []model.QER
 }
 
 func genUP4DLFAR(t *rapid.T, id uint32) model.FAR {
@@ -378,4 +378,3 @@ func TestC04(t *testing.T) {
 func init() {
 	registerFns = append(registerFns, func() { registerReplay("C04", "history", runC04) })
 }
-
